@@ -71,7 +71,7 @@ def optOk (c : Char) : Bool :=
 /-- `net`: the constructor of the `Endpoint` (`tcp` / `uds` = `Endpoint::from_shared`); which one
 is used is invisible to the property. -/
 def netCtorOk (t : String) : Bool :=
-  ["tcp", "uds", "tcps", "tcpn", "tcpb", "tcpc", "uds2", "udss", "udss2", "udsp", "udst"].contains t
+  ["tcp", "uds", "tcps", "tcpn", "tcpb", "tcpc", "uds2", "udss", "udss2", "udsp", "udst", "udsl"].contains t
 
 def b01 (b : Bool) : String := if b then "1" else "0"
 
